@@ -299,10 +299,11 @@ func checkC08(c *Ctx) *orch.Outcome {
 		}
 	}
 	// tagged scenario: recorded findings
-	for i := 0; i < 2; i++ {
+	for i, k := range gen.TaggedHostileKinds {
+		// one chain per recorded shape (a wedge ends the chain, and attribution must be unambiguous)
 		seed := c.Seed*10000 + 9000 + int64(i)
-		pj, _ := json.Marshal(c08Params{Seed: seed, Blocks: 75, Kinds: gen.TaggedHostileKinds, Tagged: true})
-		jobs = append(jobs, orch.Job{Kind: "c08.run", Name: fmt.Sprintf("c08-tagged-%d", seed), Seed: seed, Params: pj, Timeout: 900})
+		pj, _ := json.Marshal(c08Params{Seed: seed, Blocks: 90, Kinds: []string{k}, Tagged: true})
+		jobs = append(jobs, orch.Job{Kind: "c08.run", Name: fmt.Sprintf("c08-tagged-%s", k), Seed: seed, Params: pj, Timeout: 900})
 	}
 	rs := c.R.Run(jobs)
 	o.Merge(rs)
